@@ -1,6 +1,7 @@
 package c18
 
 import (
+	"crypto/sha256"
 	"fmt"
 	"math"
 	"math/big"
@@ -42,6 +43,20 @@ var findingProbes = []finding{
 		v, _ := new(big.Int).SetString("120000000000000000000000000", 10) // 1.2 at precision 26
 		if s := fixedn.ToString(v, 26); s != "1.2" {
 			return fmt.Sprintf("fixedn.ToString(12*10^25, 26) = %q (want \"1.2\")", s)
+		}
+		return ""
+	}},
+	{kfSigMalleable, func() string {
+		priv, err := privOf("p256", big.NewInt(0x1234567))
+		if err != nil {
+			return ""
+		}
+		digest := sha256.Sum256([]byte("verif"))
+		sig := priv.SignHash(digest)
+		alt := append([]byte{}, sig...)
+		new(big.Int).Sub(curveOf("p256").Params().N, new(big.Int).SetBytes(sig[32:])).FillBytes(alt[32:])
+		if priv.PublicKey().Verify(alt, digest[:]) {
+			return "PublicKey.Verify accepts the altered signature (r, N-s) of every valid (r, s): ECDSA malleability, no low-S rule (consensus behaviour shared with the reference node)"
 		}
 		return ""
 	}},
